@@ -196,6 +196,10 @@ def warp_union(ctx: Ctx) -> None:
     if S is not None and S != E:
         fresh = all(any(e.kind == "bind" and isinstance(e.target, ast.Name) and e.target.id == nm and e.value is not None and ast.unparse(e.value) == "BeatValues()" and not e.loops for e in s_.effects)
                     for s_ in csums for nm in (S, E))
+        bound_before = all(any(e.kind == "bind" and isinstance(e.target, ast.Name) and e.target.id == nm and not e.loops and not any(x.kind == "for" for x in s_.effects[:i]) for i, e in enumerate(s_.effects))
+                           for s_ in csums for nm in (S, E))
+        if not fresh and not bound_before:
+            raise AnalysisError(f"{cw.fq}: the two event lists are built only after the warps were walked - the segments are kept in another representation, which this rule does not model")
         ctx.expect("R-TABLE", cw, "both lists start empty", fresh, "", f"{S} / {E} are not fresh BeatValues() before the loop", node=cw.node)
         wl = {(ast.unparse(e.target), e.line) for s_ in csums for e in s_.effects if e.kind == "for" and ast.unparse(e.value) == f"{cw.param_names()[0]}.timing_data.warps"}
         allloops = {e.line for s_ in csums for e in s_.effects if e.kind == "for"}
@@ -824,14 +828,16 @@ def timing_source_rule(ctx: Ctx) -> None:
     decs = function_decs(sums, terminal_and_exit)
     keys = atoms_seen(decs)
     a_sim, a_chart = f"isinstance({sf}, SSCSimfile)", f"isinstance({ch}, SSCChart)"
-    vers = [k for k in keys if "version" in k]
+    vers = [k for k in keys if "version" in k.lower()]
     loops = {(ast.unparse(e.target), ast.unparse(e.value)) for s_ in sums for e in s_.effects if e.kind == "for"}
     okl = len(loops) == 1 and list(loops)[0][1] == "CHART_TIMING_PROPERTIES"
     lv = list(loops)[0][0] if loops else "?"
     hits = [k for k in keys if lv in {n.id for n in ast.walk(ast.parse(k, mode="eval")) if isinstance(n, ast.Name)}]
     from ..decide import key as _ckey
     VER = f"float({sf}.version or '0') >= {thr!r}"
-    okv = len(vers) == 1 and vers[0] == _ckey(VER)
+    # the attribute view 'version' is item_property('VERSION') without an alias: reading the key through get() is the same read
+    VER2 = f"float({sf}.get('VERSION') or '0') >= {thr!r}"
+    okv = len(vers) == 1 and vers[0] in (_ckey(VER), _ckey(VER2))
     ctx.expect("R-TABLE", f, "the version test is float(version or '0') >= SSC_VERSION_SPLIT_TIMING", okv, str(vers),
                f"version condition(s): {vers} - the documented rule is 'version 0.7 or later' (absent/empty version counts as 0)", node=f.node) if vers else None
     oka = okl and hits == [f"{lv}.__get__({ch})"]
@@ -840,7 +846,7 @@ def timing_source_rule(ctx: Ctx) -> None:
     if len(vers) != 1 or len(hits) != 1:
         raise AnalysisError(f"{f.fq}: the version / chart-timing conditions are not recognised (found {vers} / {hits})")
     judge(ctx, "R-TABLE", f, "the chart is the source exactly under: SSC simfile and SSC chart and version >= 0.7 and any non-empty chart timing property; otherwise the simfile",
-          decs, [a_sim, a_chart, VER, hits[0]], lambda a: f"return {ch} [leaving the loop at this element]" if all(a.values()) else f"return {sf}")
+          decs, [a_sim, a_chart, VER, hits[0]], lambda a: f"return {ch} [leaving the loop at this element]" if all(a.values()) else f"return {sf}", equiv={VER2: (VER, True)})
 
 
 def single_source(ctx: Ctx) -> None:
@@ -981,6 +987,8 @@ def coalesce_coherence(ctx: Ctx) -> None:
                 out.append(("store", ast.unparse(kw["beat"])))
         return out
 
+    if not any(stores_on(n.id) for n in cfg.nodes if any(n.ast is x or (n.ast is not None and any(y is n.ast for y in ast.walk(x))) for x in lp.body)):
+        raise AnalysisError(f"{f.fq}: the WARP_END list '{ends}' is not written while the warps are walked - the segments are kept in another representation, which this rule does not model")
     if isinstance(X, ast.Name):
         bs = loc.b.get(X.id, [])
         inner = [b for b in bs if in_body(lp, b.node)]
